@@ -1,4 +1,331 @@
-"""Witness search over the native domains that have no Coq model (placeholder until the
-all-domains harness is built)."""
-def search(rep, tier, seed, prop):
-    return
+"""Witness search over the native domains that have no Coq model (DESIGN.md 3.2, and the
+"Search" items of C03/C04/C05/C16).  Operation histories are executed on the real C++
+domains (harness/domall{1,2,3}.cpp, one --mode per domain) and a python oracle replays
+them on sampled concrete stores (gen/domhist.py, gen/domall_extra.py) and checks every
+answer.  There is no model to compare with: the oracle is applied to every case.
+
+A hit is shrunk (delta debugging against the real code, the class of the oracle message
+kept fixed), then matched against known_findings.json (entries with
+stream = "search-<domain>" or "search-*": `line_regex` is matched against the *shrunk*
+history, the optional `witness_regex` against the oracle message); what matches is
+reported as KNOWN-FINDING, anything else as a VIOLATION with the failing input."""
+import os, re, sys, time, random, json
+_V = os.path.dirname(os.path.dirname(os.path.abspath(__file__)))
+for _p in ("bin", "gen", "checks"):
+    if os.path.join(_V, _p) not in sys.path:
+        sys.path.insert(0, os.path.join(_V, _p))
+import vlib, domhist, domcommon
+import domall_extra as X
+
+# name, translation unit, relational?, k (dimension factor for the chain bound), operations never sent
+DOMAINS = [
+    dict(name="zones", tu="domall1", rel=True),
+    dict(name="zones-safe", tu="domall1", rel=True),
+    dict(name="sparse", tu="domall1", rel=True),
+    dict(name="pack", tu="domall1", rel=True),
+    dict(name="tvpi", tu="domall1", rel=True, k=3),
+    dict(name="vpart", tu="domall1", rel=True),
+    dict(name="gen-zones", tu="domall1", rel=True, wrapper_of="zones"),
+    dict(name="ref-zones", tu="domall1", rel=True, wrapper_of="zones"),
+    dict(name="oct", tu="domall2", rel=True),
+    dict(name="look-oct", tu="domall2", rel=True),
+    dict(name="term-itv", tu="domall2", rel=True),
+    dict(name="term-zones", tu="domall2", rel=True),
+    dict(name="term-dis", tu="domall2", rel=True),
+    dict(name="uf", tu="domall2", rel=True),
+    dict(name="num", tu="domall2", rel=True),
+    dict(name="disitv", tu="domall3", rel=False),
+    dict(name="cong", tu="domall3", rel=False),
+    dict(name="ric", tu="domall3", rel=False),
+    dict(name="sign", tu="domall3", rel=False),
+    dict(name="const", tu="domall3", rel=False),
+    dict(name="signconst", tu="domall3", rel=False),
+    dict(name="prod-ic", tu="domall3", rel=False),
+    dict(name="bool-itv", tu="domall3", rel=False),
+    dict(name="bool-sparse", tu="domall3", rel=True),
+    dict(name="pow-itv", tu="domall3", rel=False),
+    dict(name="pow-zones", tu="domall3", rel=True),
+]
+EXCLUDED = {
+    "wrapped_interval_domain": "machine-integer semantics (wrap-around at the bit width): not comparable with the mathematical-integer oracle; covered by C13",
+    "boxes_domain": "needs the LDD library (not built in this tree)",
+    "apron_domain / elina_domain / pplite": "external libraries not built in this tree",
+    "array_* / region_domain": "not numerical-only domains: searched by C14/C15",
+}
+CHECKS = {"C03": ("at", "entails", "csts", "bot"), "C04": ("leq", "at", "bot", "csts"),
+          "C05": ("at", "csts", "bot", "leq"), "C16": ("at", "entails", "csts", "bot", "leq")}
+MAX_SHRINK_PER_BUCKET = 2
+MAX_BUCKETS_SHRUNK = 12
+
+
+def sizes(tier, prop):
+    if tier == "quick":
+        return {"C03": 110, "C04": 110, "C05": 60, "C16": 70}[prop]
+    return {"C03": 6000, "C04": 5000, "C05": 2500, "C16": 3000}[prop]
+
+
+def run_cases(exe, mode, lines, path, timeout=900):
+    with open(path, "w") as f:
+        f.write("\n".join(lines) + "\n")
+    res = vlib.run_harness_resilient(exe, ["--mode=" + mode], path, len(lines), timeout)
+    return [res.get(i, "MISSING") for i in range(len(lines))]
+
+
+def shrink(exe, mode, line, oracle, kind, scratch, budget=40):
+    """greedy delta debugging on the operation list: drop chunks, then single operations,
+    as long as the real code still produces an answer the oracle rejects in the same
+    class.  `forget` immediately before `rename` is kept (precondition of rename)."""
+    ops = line.split(" ; ")
+    head, body = ops[0], ops[1:]
+    best_w = None
+
+    def cands(body, size):
+        out = []
+        i = 0
+        while i < len(body):
+            j = min(len(body), i + size)
+            if not (j < len(body) and body[j].startswith("rename") and body[j - 1].startswith("forget")):
+                out.append(body[:i] + body[j:])
+            i += size
+        return out
+
+    size = max(1, len(body) // 2)
+    rounds = 0
+    while rounds < budget:
+        rounds += 1
+        cs = [c for c in cands(body, size) if c]
+        if not cs:
+            break
+        lines = [head + " ; " + " ; ".join(c) for c in cs]
+        answers = run_cases(exe, mode, lines, scratch, timeout=120)
+        hit = None
+        for c, l, a in zip(cs, lines, answers):
+            try:
+                w = oracle(l, a)
+            except Exception:
+                w = None
+            if w and X.kind_of(w) == kind:
+                hit = (c, w)
+                break
+        if hit:
+            body, best_w = hit
+            size = max(1, min(size, len(body) // 2))
+        elif size > 1:
+            size //= 2
+        else:
+            break
+    return head + " ; " + " ; ".join(body), best_w
+
+
+def match_known(known, prop, stream, line, w):
+    for k in known:
+        if k.get("property") != prop:
+            continue
+        s = k.get("stream", "")
+        if not (s == stream or s == "search-*" or (s.endswith("*") and stream.startswith(s[:-1]))):
+            continue
+        if not re.search(k.get("line_regex", ""), line):
+            continue
+        if k.get("witness_regex") and not re.search(k["witness_regex"], w):
+            continue
+        return k
+    return None
+
+
+def examine(rep, prop, dom, exe, stream, lines, answers, oracle, st, known, shrink_ok=True):
+    """oracle on every case; bucket the hits by (class of message, operation of the failing
+    step); shrink a few per bucket; report"""
+    d = os.path.join(vlib.VERIF, "out", prop)
+    buckets = {}
+    for i, (l, a) in enumerate(zip(lines, answers)):
+        if a in ("ABORT", "MISSING"):
+            st["aborts"] += 1
+            if len(st.setdefault("abort_samples", [])) < 3:
+                st["abort_samples"].append(l)
+            continue
+        try:
+            w = oracle(l, a)
+        except Exception as e:
+            w = None
+            st["oracle_errors"] = st.get("oracle_errors", 0) + 1
+            if "oracle_error_sample" not in st:
+                st["oracle_error_sample"] = "%r on %s -> %s" % (e, l, a[:200])
+        if w:
+            st["oracle_violations"] += 1
+            buckets.setdefault((X.kind_of(w), X.step_of(w)), []).append((l, a, w))
+    nshrunk = 0
+    for (kind, step), hits in sorted(buckets.items()):
+        reported = set()
+        for (l, a, w) in hits[:MAX_SHRINK_PER_BUCKET]:
+            l2, w2 = l, w
+            if shrink_ok and nshrunk < MAX_BUCKETS_SHRUNK * MAX_SHRINK_PER_BUCKET:
+                nshrunk += 1
+                l2, w2 = shrink(exe, dom["name"], l, oracle, kind, os.path.join(d, stream + ".shrink"))
+                w2 = w2 or w
+            if l2 in reported:
+                continue
+            reported.add(l2)
+            kn = match_known(known, prop, stream, l2, w2)
+            if kn:
+                rep.known_finding("%s [%s, %d hit(s) of this class in the stream] input: %s" % (kn["what"], stream, len(hits), l2))
+                st["known"] = st.get("known", 0) + 1
+            else:
+                tag = "%s-%s-%s-%d" % (stream, kind, re.sub(r"\W+", "_", step), len(reported))
+                text = ("FAILING INPUT (property oracle on the answer of the real %s domain, no model involved): %s\n"
+                        "domain=%s stream=%s class=%s hits-of-this-class=%d\nshrunk history: %s\noriginal history: %s\n"
+                        "replay: build/impl-*/h-%s-* --mode=%s <file with the history>\n"
+                        % (dom["name"], w2, dom["name"], stream, kind, len(hits), l2, l, dom["tu"], dom["name"]))
+                rep.violation(tag, text, True)
+    return buckets
+
+
+def search(rep, tier, seed, prop, only=None, n=None, shrink_ok=True):
+    t0 = time.time()
+    doms = [d for d in DOMAINS if only is None or d["name"] in only]
+    tus = sorted(set(d["tu"] for d in doms))
+    built = vlib.build_harnesses(tus)
+    known = [k for k in vlib.load_known().get("findings", []) if str(k.get("stream", "")).startswith("search-")]
+    n = n or sizes(tier, prop)
+    outd = os.path.join(vlib.VERIF, "out", prop)
+    os.makedirs(outd, exist_ok=True)
+    rep.cov.setdefault("search", {})["excluded_domains"] = EXCLUDED
+    rep.cov["search"]["domains"] = [d["name"] for d in doms]
+    checks = CHECKS[prop]
+    base_answers = {}
+    for dom in doms:
+        name = dom["name"]
+        stream = "search-" + name
+        st = {"cases": 0, "oracle_violations": 0, "aborts": 0}
+        rep.cov["streams"][stream] = st
+        exe, err = built[dom["tu"]]
+        if err:
+            rep.violation(stream + "-build", "witness search %s: %s" % (stream, err), False)
+            continue
+        big = False
+        lines = X.histories(seed + 1000 + (zlib_id(prop)), prop, n, big=big)
+        if tier != "quick" and not dom["rel"]:
+            lines += X.histories(seed + 2000, prop, n // 4, big=True)      # non-relational: arbitrary-precision bounds
+        orc = lambda l, a: X.oracle_ext(l, a, None, checks)
+        answers = run_cases(exe, name, lines, os.path.join(outd, stream + ".cases"))
+        st["cases"] += len(lines)
+        examine(rep, prop, dom, exe, stream, lines, answers, orc, st, known, shrink_ok)
+        if prop == "C16":
+            base_answers[name] = (lines, answers)
+            # (iii) normalize()/minimize()/queries injected: every sound answer stays sound, and is
+            # compared with the un-injected run
+            rng = random.Random(seed + 16)
+            inj = [X.with_normalize(l, rng) for l in lines]
+            ans2 = run_cases(exe, name, [x[0] for x in inj], os.path.join(outd, stream + "-inj.cases"))
+            st["cases"] += len(inj)
+            examine(rep, prop, dom, exe, stream, [x[0] for x in inj], ans2, orc, st, known, shrink_ok)
+            diff = 0
+            for (l, a), (l2, keep), a2 in zip(zip(lines, answers), inj, ans2):
+                if a in ("ABORT", "MISSING") or a2 in ("ABORT", "MISSING"):
+                    continue
+                p2 = a2.split(" ; ")
+                if [p2[i] for i in keep if i < len(p2)] != a.split(" ; "):
+                    diff += 1
+                    st.setdefault("normalize_changes_answers_sample", l2)
+            st["normalize_changes_answers"] = diff
+            w = dom.get("wrapper_of")
+            if w and w in base_answers:
+                bl, ba = base_answers[w]
+                nd = 0
+                for l, a, b in zip(lines, answers, ba):
+                    if a != b and "ABORT" not in (a, b):
+                        nd += 1
+                        st.setdefault("wrapper_differs_sample", l)
+                st["wrapper_differs_from_bare"] = nd
+        if prop == "C05":
+            # interval-shaped chains of the modelled domain, with its bound
+            ch = domcommon.widen_chains(seed + 5, max(10, n // 3))
+            ans = run_cases(exe, name, ch, os.path.join(outd, stream + "-chains.cases"))
+            st["cases"] += len(ch)
+            k = dom.get("k", 1)
+            examine(rep, prop, dom, exe, stream, ch, ans, lambda l, a: chain_oracle_k(l, a, k), st, known, shrink_ok=False)
+            # relational chains, long enough to exceed the bound if the widening does not stabilise
+            steps = 130 if tier == "quick" else 220
+            rc = X.rel_chains(seed + 6, max(6, n // 6), steps, maxvars=(2 if k > 1 else 3))
+            ans = run_cases(exe, name, rc, os.path.join(outd, stream + "-relchains.cases"))
+            st["cases"] += len(rc)
+            st["chain_steps"] = steps
+            examine(rep, prop, dom, exe, stream, rc, ans, lambda l, a: X.rel_chain_oracle(l, a, None, k), st, known, shrink_ok=False)
+        rep.cov["evaluations"] += st["cases"]
+    rep.cov["search"]["wall_s"] = round(time.time() - t0, 1)
+
+
+def chain_oracle_k(line, ans, k):
+    if ans in ("ABORT", "MISSING"):
+        return None
+    w = domcommon.chain_oracle(line, ans)
+    if w and "non-stationary" in w and k > 1:
+        # fixed-tvpi keeps ghost dimensions x/2, x/3: re-evaluate with its own bound
+        return X.rel_chain_oracle_interval(line, ans, k) if hasattr(X, "rel_chain_oracle_interval") else None
+    if w and not w.startswith("step"):
+        w = "step 0 (widen) of: " + w
+    return w
+
+
+def zlib_id(s):
+    import zlib
+    return zlib.crc32(s.encode()) % 1000
+
+
+class _Rep:
+    """stand-alone report for the command line"""
+    def __init__(self, prop):
+        self.prop = prop
+        self.cov = {"streams": {}, "evaluations": 0}
+        self.v = []; self.k = []
+
+    def violation(self, tag, text, w):
+        self.v.append((tag, text))
+
+    def known_finding(self, what):
+        self.k.append(what)
+
+
+if __name__ == "__main__":
+    import argparse
+    ap = argparse.ArgumentParser()
+    ap.add_argument("prop")
+    ap.add_argument("--dom", default=None)
+    ap.add_argument("--n", type=int, default=None)
+    ap.add_argument("--seed", type=int, default=20260925)
+    ap.add_argument("--tier", default="quick")
+    ap.add_argument("--no-shrink", action="store_true")
+    ap.add_argument("--replay", help="a history (text) or a file holding one: run it on --dom, print every step with its answer")
+    ap.add_argument("--shrink", action="store_true", help="with --replay: shrink first")
+    a = ap.parse_args()
+    if a.replay:
+        line = open(a.replay).read().strip().split("\n")[0] if os.path.exists(a.replay) else a.replay
+        for dn in a.dom.split(","):
+            dom = [d for d in DOMAINS if d["name"] == dn][0]
+            exe, err = vlib.build_harness(dom["tu"])
+            sc = os.path.join(vlib.VERIF, "out", "replay-%s.cases" % dn)
+            orc = lambda l, x: (X.rel_chain_oracle(l, x, None, dom.get("k", 1)) if a.prop == "C05" and "q_leq 0 2" in l else X.oracle_ext(l, x, None, CHECKS[a.prop]))
+            ans = run_cases(exe, dn, [line], sc)[0]
+            w = orc(line, ans)
+            if a.shrink and w:
+                line, w = shrink(exe, dn, line, orc, X.kind_of(w), sc + ".s")
+                ans = run_cases(exe, dn, [line], sc)[0]
+            print("== %s" % dn)
+            print(line)
+            parts = ans.split(" ; ")
+            for i, o in enumerate(line.split(" ; ")[1:]):
+                print("%3d  %-60s -> %s" % (i + 1, o, parts[i] if i < len(parts) else "?"))
+            if ans in ("ABORT", "MISSING"):
+                print(ans, vlib.sh([exe, "--mode=" + dn, sc])[1][-300:])
+            print("oracle:", w)
+        sys.exit(0)
+    rep = _Rep(a.prop)
+    t = time.time()
+    search(rep, a.tier, a.seed, a.prop, only=a.dom.split(",") if a.dom else None, n=a.n, shrink_ok=not a.no_shrink)
+    for name, st in rep.cov["streams"].items():
+        print(name, json.dumps(st)[:600])
+    for k in rep.k:
+        print("KNOWN:", k[:400])
+    for tag, text in rep.v:
+        print("VIOLATION", tag)
+        print("   " + "\n   ".join(text.split("\n")[:3]))
+    print("wall %.1f s, %d violations, %d known" % (time.time() - t, len(rep.v), len(rep.k)))
